@@ -96,9 +96,33 @@ def gen_script_tokens(rng):
     return out
 
 
-def render_script(stmts, layout, rng):
-    texts = [render(toks, layout, rng) for toks in stmts]
+def render_script(stmts, layout, rng, raw=None):
+    """raw: {statement index: [whole lines written, unchanged in every layout, directly before that statement]} (index len(stmts): at the end)"""
+    texts = []
+    for i, toks in enumerate(stmts):
+        texts += (raw or {}).get(i, [])
+        texts.append(render(toks, layout, rng))
+    texts += (raw or {}).get(len(stmts), [])
     return finish_script(texts, layout, rng)
+
+
+# whole lines between the statements under test (never re-laid: C05 names CREATE TABLE / ALTER TABLE / CREATE INDEX / CREATE SEQUENCE): session
+# settings as dump tools write them, and one-line statements the parser skips that do not begin with CREATE / ALTER / DROP / SET
+RAW_SET = ["SET search_path = public;", "SET statement_timeout = 0;", "SET NOCOUNT ON", "set client_encoding = 'UTF8';"]
+RAW_SKIPPED = ["COMMENT ON TABLE x IS 'first';", "ANALYZE t;", "COMMIT;", "EXEC sp_help;", "VACUUM;"]
+
+
+def gen_raw(rng, n):
+    raw = {}
+    for i in range(n + 1):
+        lines = []
+        if i and rng.random() < 0.5:
+            lines.append(rng.choice(RAW_SKIPPED))
+        if i < n and rng.random() < 0.5:
+            lines.append(rng.choice(RAW_SET))
+        if lines:
+            raw[i] = lines
+    return raw
 
 
 def token_divergence(base_text, var_text):
@@ -175,7 +199,15 @@ def rebreak(text, rng, p=0.3):
     """text-level line breaks: every one-line CREATE TABLE / ALTER TABLE / CREATE INDEX / CREATE SEQUENCE statement of the script may be
     broken at any blank outside quotes (continuation lines indented; never before a statement-level word or directly before a quote)"""
     out = []
+    in_block = False          # inside a block comment that runs over several lines: its lines are comment text, whatever they look like
     for line in text.split("\n"):
+        if in_block:
+            out.append(line)
+            if "*/" in line:
+                in_block = False
+            continue
+        if "/*" in line and "*/" not in line.split("/*", 1)[1]:
+            in_block = True
         if not STMT_HEAD.match(line) or not line.rstrip().endswith(";") or any(m in line for m in ("--", "/*", "*/", "#")) or line.count("'") % 2 or line.count('"') % 2:
             out.append(line)
             continue
@@ -216,10 +248,13 @@ def run_shard(ctx):
                 ctx.obs["text_level_rebroken_scripts"] += 1
     for j in range(ctx.budget(450, 4000)):
         stmts = gen_script_tokens(rng)
-        base = render_script(stmts, None, rng)
+        raw = gen_raw(rng, len(stmts)) if j % 4 == 3 else None
+        if raw:
+            ctx.obs["scripts_with_whole_lines_between_statements"] += 1
+        base = render_script(stmts, None, rng, raw)
         picks = rng.sample(LAYOUTS, nvar)
         for name, lay in picks:
-            var = render_script(stmts, lay, rng)
+            var = render_script(stmts, lay, rng, raw)
             check_case(ctx, {"gen": "generated", "layout_name": name, "layout": lay, "base": base, "variant": var})
         if rng.random() < 0.15:
             name, lay = KF_LAYOUT
